@@ -367,28 +367,44 @@ fn collect_items(c: &Ctx<WsClient>, mut sub: Subscription<Item>, n: usize) -> Ve
 
 pub fn check(rep: &Reporter) {
 	rep.set_rule(
-		"a fixed family of #[rpc(client, server)] declarations compiled into the harness (0–4 params; trailing Option ×1 and ×2; Option in the middle; param_kind array/map; #[argument(rename)]; camelCase name; aliases; namespaces with separators `_`, `.`, `/`; sync, async, blocking; RpcResult / Result<_, ErrorObjectOwned> and error returns; subscriptions with params, Option tail, map kind, overridden notification name, aliases) served in memory and called through the generated client stubs over a real WsClient (duplex stream) and a real HttpClient (bridged in process to the server's tower service); full product of per-type argument alphabets per method (u64/i64/u8 boundaries, f64 incl. −0.0 and 1e308, bool, strings with quotes/backslashes/NUL/astral — thorough: all strings of length ≤ 2 over 12 such symbols —, vectors, nested struct with enum and map), plus hand-encoded requests for the three spellings of a trailing optional under both encodings, every alias and every namespaced name. Oracle: recorded server arguments == client arguments, client result == server return, subscription items equal and in order.",
+		"a fixed family of #[rpc(client, server)] declarations compiled into the harness (0–4 params; trailing Option ×1 and ×2; Option in the middle; param_kind array/map; #[argument(rename)]; camelCase name; aliases; namespaces with separators `_`, `.`, `/`; sync, async, blocking; RpcResult / Result<_, ErrorObjectOwned> and error returns; subscriptions with params, Option tail, map kind, overridden notification name, aliases) served in memory and called through the generated client stubs over a real WsClient (duplex stream), a real HttpClient (bridged in process to the server's tower service), and both clients built from URLs against Server::start on a loopback socket; full product of per-type argument alphabets per method (u64/i64/u8 boundaries, f64 incl. −0.0 and 1e308, bool, all strings of length ≤ 2 over 12 (thorough 20) symbols with quotes/backslashes/NUL/controls/astral/combining characters; thorough adds a decimal ladder of 1..17 significant digits at 7 magnitudes to the f64 alphabet; vectors, nested struct with enum and map), plus hand-encoded requests for the three spellings of a trailing optional under both encodings, every alias and every namespaced name. Oracle: recorded server arguments == client arguments, client result == server return, subscription items equal and in order.",
 	);
 	rep.assume("the `programs` quantifier is covered over this fixed family of declarations only");
 	let thorough = rep.tier.thorough();
 	let mut local = Local::default();
 	// alphabets
-	let u64s: Vec<u64> = if thorough { vec![0, 1, 9, 10, 255, 256, u32::MAX as u64, 1 << 32, (1 << 53) - 1, 1 << 53, (1 << 53) + 1, 1 << 63, u64::MAX - 1, u64::MAX] } else { U64S.to_vec() };
-	let i64s: Vec<i64> = if thorough { vec![i64::MIN, i64::MIN + 1, -(1 << 53) - 1, -256, -1, 0, 1, 255, (1 << 53) + 1, i64::MAX - 1, i64::MAX] } else { I64S.to_vec() };
-	let f64s: Vec<f64> = if thorough { vec![0.0, -0.0, 1.5, 1e308, -2.5e-300, f64::MIN_POSITIVE, f64::MAX, f64::MIN, 5e-324, 0.1, 1e21, 123456789.123456789] } else { F64S.to_vec() };
-	let strs: Vec<String> = if thorough {
-		let sym = ["a", "\"", "\\", "\n", "\u{0}", "é", "\u{1F600}", " ", "/", "\u{2028}", "{", "\u{7f}"];
+	let u64s: Vec<u64> = vec![0, 1, 9, 10, 255, 256, u32::MAX as u64, 1 << 32, (1 << 53) - 1, 1 << 53, (1 << 53) + 1, 1 << 63, u64::MAX - 1, u64::MAX];
+	let i64s: Vec<i64> = vec![i64::MIN, i64::MIN + 1, -(1 << 53) - 1, -256, -1, 0, 1, 255, (1 << 53) + 1, i64::MAX - 1, i64::MAX];
+	let mut f64s: Vec<f64> = vec![0.0, -0.0, 1.5, 1e308, -2.5e-300, f64::MIN_POSITIVE, f64::MAX, f64::MIN, 5e-324, 0.1, 1e21, 123456789.123456789];
+	if thorough {
+		// a decimal ladder: values whose shortest decimal form has 1..17 significant digits, at several magnitudes
+		for digits in 1..=17u32 {
+			for exp in [-300i32, -20, -5, 0, 5, 20, 300] {
+				let m: f64 = (1..=digits).fold(0.0, |acc, d| acc * 10.0 + ((d * 7) % 10) as f64);
+				let v = m * 10f64.powi(exp - digits as i32);
+				if v.is_finite() {
+					f64s.push(v);
+					f64s.push(-v);
+				}
+			}
+		}
+	}
+	let strs: Vec<String> = {
+		let sym: Vec<&str> = if thorough {
+			vec!["a", "\"", "\\", "\n", "\u{0}", "é", "\u{1F600}", " ", "/", "\u{2028}", "{", "\u{7f}", "\t", "\r", "\u{1b}", "e\u{301}", "\u{feff}", "\u{fffd}", "]", ":"]
+		} else {
+			vec!["a", "\"", "\\", "\n", "\u{0}", "é", "\u{1F600}", " ", "/", "\u{2028}", "{", "\u{7f}"]
+		};
 		let mut v = vec![String::new()];
-		for a in sym {
+		for a in &sym {
 			v.push(a.to_string());
-			for b in sym {
+			for b in &sym {
 				v.push(format!("{a}{b}"));
 			}
 		}
 		v
-	} else {
-		STRS.iter().map(|s| s.to_string()).collect()
 	};
+	let _ = (U64S, I64S, F64S, STRS);
 	let c = ctx();
 	stubs(rep, &mut local, &c, "ws", &u64s, &i64s, &f64s, &strs);
 	subs(rep, &mut local, &c);
@@ -405,6 +421,32 @@ pub fn check(rep: &Reporter) {
 		drop(_e);
 		let c = Ctx { rt, client, log, _handle: handle };
 		stubs(rep, &mut local, &c, "http", &u64s, &i64s, &f64s, &strs);
+	}
+	// and once more with nothing in-process: `Server::start` on a loopback socket, the WebSocket client and the HTTP client
+	// built from URLs (their real transports: TCP connect, soketto handshake, hyper client)
+	{
+		let rt = srv::rt();
+		let log: Log = Arc::new(Mutex::new(Vec::new()));
+		let started = rt.block_on(async {
+			let server = jsonrpsee_server::Server::builder().build("127.0.0.1:0").await.map_err(|e| e.to_string())?;
+			let addr = server.local_addr().map_err(|e| e.to_string())?;
+			let handle = server.start(module(&log));
+			let ws: WsClient = WsClientBuilder::default().build(format!("ws://{addr}")).await.map_err(|e| e.to_string())?;
+			let http = jsonrpsee_http_client::HttpClientBuilder::default().build(format!("http://{addr}")).map_err(|e| e.to_string())?;
+			Ok::<_, String>((handle, ws, http))
+		});
+		match started {
+			Ok((handle, ws, http)) => {
+				let c = Ctx { rt, client: ws, log: log.clone(), _handle: handle.clone() };
+				stubs(rep, &mut local, &c, "tcp-ws", &u64s, &i64s, &f64s, &strs);
+				subs(rep, &mut local, &c);
+				let Ctx { rt, client, .. } = c;
+				drop(client);
+				let c = Ctx { rt, client: http, log, _handle: handle };
+				stubs(rep, &mut local, &c, "tcp-http", &u64s, &i64s, &f64s, &strs);
+			}
+			Err(e) => rep.machinery_error(format!("C17 loopback leg could not start: {e}")),
+		}
 	}
 	// the notification method name override is what the wire carries: checked through a raw frame in C04; here the stubs suffice
 	rep.merge(local);
